@@ -38,8 +38,12 @@ def set_budget(payload_len):
     _budget[0] = None if payload_len is None else 8 * payload_len + 512
     _char_budget[0] = None if payload_len is None else 3 * payload_len + 64
     _delivered[0] = 0
+    _refills[0] = 0
+    _replays[0] = 0
 
 
+_refills = [0]
+_replays = [0]
 # characters handed to the tokenizer by chunk refills in this run: a restart
 # may deliver the payload twice, never more
 _char_budget = [None]
@@ -102,7 +106,8 @@ def install():
         b = _budget[0]
         if b is not None:
             _delivered[0] += self.chunkSize
-            if P["readChunk"] > b or _delivered[0] > _char_budget[0]:
+            _refills[0] += 1
+            if _refills[0] > b or _delivered[0] > _char_budget[0]:
                 from .sources import SimBudgetExceeded
                 raise SimBudgetExceeded("more than %d chunk refills or %d characters delivered for this payload"
                                         % (b, _char_budget[0]))
@@ -141,7 +146,9 @@ def install():
     def _readFromBuffer(self, bytes):
         PROBES["bufferedstream_replay"] += 1
         b = _budget[0]
-        if b is not None and PROBES["bufferedstream_replay"] > b:
+        if b is not None:
+            _replays[0] += 1
+        if b is not None and _replays[0] > b:
             from .sources import SimBudgetExceeded
             raise SimBudgetExceeded("more than %d reads served from the replay buffer" % b)
         return orig_rfb(self, bytes)
